@@ -26,9 +26,9 @@ type c20Params struct {
 
 func init() {
 	register(&c20{base{
-		id:    "C20",
-		level: lvlExploration,
-		rule: "the built par binary is run as a real process for {PAR1, PAR2} x archive state {intact, repairable, all-slices-present-but-wrong with and without recovery files (PAR2), unrepairable, no parity + damage, no parity + intact, damaged index, missing index} x invocation directory {set directory with a relative path, parent with a relative path, unrelated directory with an absolute path} x command spellings (create/c/C/Create, verify/v/VERIFY, repair/r/Repair) and flags (-g, -s, -c, -a, -doublecheck); plus usage errors (no command, unknown command, missing arguments, bad flags) and create failures (missing input, invalid slice size, unwritable target, a directory squatting on a volume name). The expected status is computed by the harness from the state it constructed: create ok 0; verify clean 0 / needed+possible 1 / needed+impossible 2; repair done 0 / impossible 2; usage 3; any other failure a status outside {0,1,2,3}. A 0 status is cross-checked against the disk (repair: all originals; create: complete set that verifies; verify: files identical). A key is (format, state, cwd, command spelling, flags)",
+		id:          "C20",
+		level:       lvlExploration,
+		rule:        "the built par binary is run as a real process for {PAR1, PAR2} x archive state {intact, repairable, all-slices-present-but-wrong with and without recovery files (PAR2), unrepairable, no parity + damage, no parity + intact, damaged index, missing index} x invocation directory {set directory with a relative path, parent with a relative path, unrelated directory with an absolute path} x command spellings (create/c/C/Create, verify/v/VERIFY, repair/r/Repair) and flags (-g, -s, -c, -a, -doublecheck); plus usage errors (no command, unknown command, missing arguments, bad flags) and create failures (missing input, invalid slice size, unwritable target, a directory squatting on a volume name). The expected status is computed by the harness from the state it constructed: create ok 0; verify clean 0 / needed+possible 1 / needed+impossible 2; repair done 0 / impossible 2; usage 3; any other failure a status outside {0,1,2,3}. A 0 status is cross-checked against the disk (repair: all originals; create: complete set that verifies; verify: files identical). A key is (format, state, cwd, command spelling, flags)",
 		assumptions: commonAssumptions,
 		opts:        core.WorkerOpts{CrashIsViolation: false, WallSeconds: 2400},
 	}})
@@ -164,8 +164,12 @@ func (c *c20) Run(cs core.Case) core.Result {
 	if rng.Intn(2) == 0 {
 		rflags = []string{"-doublecheck"}
 	}
-	verify := func() cliRun { return runPar(cwd, append(append(append([]string{}, g...), verifySpell), append(vflags, idx)...)...) }
-	repair := func() cliRun { return runPar(cwd, append(append(append([]string{}, g...), repairSpell), append(rflags, idx)...)...) }
+	verify := func() cliRun {
+		return runPar(cwd, append(append(append([]string{}, g...), verifySpell), append(vflags, idx)...)...)
+	}
+	repair := func() cliRun {
+		return runPar(cwd, append(append(append([]string{}, g...), repairSpell), append(rflags, idx)...)...)
+	}
 	vw, rw := "verify("+verifySpell+")", "repair("+repairSpell+")"
 
 	switch p.State {
@@ -272,6 +276,9 @@ func (c *c20) Run(cs core.Case) core.Result {
 		expect("repair-without-file", runPar(cwd, "repair"), "3")
 		expect("create-without-file", runPar(cwd, "c"), "3")
 		expect("create-without-data-files", runPar(cwd, "create", spell("new"+filepath.Ext(w.idxName))), "3")
+		expect("create-with-options-but-no-data-files", runPar(cwd, "c", "-c", "2", spell("new"+filepath.Ext(w.idxName))), "3")
+		expect("create-with-slice-option-but-no-data-files", runPar(cwd, "create", "-s", "8", "-c=3", spell("new"+filepath.Ext(w.idxName))), "3")
+		expect("create-with-options-and-no-file", runPar(cwd, "c", "-c", "2"), "3")
 		expect("bad-global-flag", runPar(cwd, "-zz", "v", idx), "3")
 		expect("bad-verify-flag", runPar(cwd, "v", "-nope", idx), "3")
 		expect("bad-repair-flag", runPar(cwd, "r", "-nope", idx), "3")
